@@ -25,7 +25,8 @@ def build_suite(name, rng, n, tier, **kw):
     if name == "order":
         return suites.suite_order(rng, n, **kw)
     if name == "validate":
-        return suites.suite_validate(rng, None if tier == "thorough" else n, exhaustive=(tier == "thorough"), **kw)
+        whole = tier == "thorough" or n >= 4000      # C13 runs the whole grammar on 5 shapes even in quick (a few seconds)
+        return suites.suite_validate(rng, None if whole else n, exhaustive=whole, **kw)
     raise ValueError(name)
 
 
@@ -115,7 +116,19 @@ PROPS = {
 
 
 def extra_monitor(pid, rng, tier, seed):
-    return []
+    """checks that need more than one interpreter"""
+    out = []
+    if pid == "C14":
+        # the same calls under several PYTHONHASHSEEDs (separate interpreters): the numbers must not depend on it
+        from . import monitors
+        n = 80 if tier == "quick" else 1500
+        seeds = (0, 1) if tier == "quick" else (0, 1, 4242, 99991)
+        dig = monitors.hashseed_digests(seed, n, seeds=seeds)
+        if len(set(dig.values())) != 1 or any(str(v).startswith("ERR") for v in dig.values()):
+            out.append({"property": pid, "clause": "results depend on the process hash seed",
+                        "case": {"calls": n, "generator_seed": seed, "PYTHONHASHSEED": list(seeds)},
+                        "detail": "digest of the results of the same %d calls per hash seed: %s" % (n, dig), "observed": dig})
+    return out
 
 
 # ------------------------------------------------------------------ judging disagreeing correspondence cases
@@ -127,7 +140,7 @@ def judge_corr_cases(pid, corr_bad):
         for d in b["diffs"]:
             if _diff_concerns(pid, d):
                 out.append({"property": pid, "clause": "implementation differs from the proved model: " + d.split(":")[0],
-                            "case": {"driver_line": b["line"][:3000], "suite": b["suite"]}, "detail": d,
+                            "case": {"driver_line": b["line"][:3000], "suite": b["suite"], "case": b.get("case")}, "detail": d,
                             "observed": {"impl": b["impl"], "model": b["model"]}})
                 break
         if len(out) >= 3:
